@@ -19,6 +19,8 @@ import (
 	"time"
 
 	kit "github.com/refraction-networking/conjure/internal/verifkit"
+	pb "github.com/refraction-networking/conjure/proto"
+	"google.golang.org/protobuf/proto"
 )
 
 func TestVerifC20Child(t *testing.T) {
@@ -62,7 +64,12 @@ func c20Supervise(t *testing.T, mountns bool) {
 	if err := os.MkdirAll(s.tmpdir, 0o755); err != nil {
 		t.Fatal(err)
 	}
-	if p, err := exec.LookPath("strace"); err == nil {
+	// VERIF_C20_NO_STRACE / VERIF_C20_NO_MOUNTNS: pretend the tool is missing (to exercise the degraded paths)
+	if os.Getenv("VERIF_C20_NO_MOUNTNS") != "" {
+		mountns = false
+		s.mountns = false
+	}
+	if p, err := exec.LookPath("strace"); err == nil && os.Getenv("VERIF_C20_NO_STRACE") == "" {
 		s.strace = p
 	} else {
 		rec.Note("strace not found: the system-call crash-point and error-injection sub-stages did not run")
@@ -82,6 +89,25 @@ func c20Supervise(t *testing.T, mountns bool) {
 	}
 
 	s.stageBaseline()
+	if s.strace != "" {
+		// can strace attach to a thread of a child here (ptrace may be forbidden)?
+		dir, cleanup := s.newDir("probe-strace", "")
+		p, err := s.start(dir, 0)
+		if err != nil {
+			s.fatal("probe: %v", err)
+		}
+		tr, err := s.attach(p.tid, filepath.Join(s.base, "probe.log"), "")
+		p.send("quit")
+		p.drain(func(string) {})
+		p.wait()
+		if err != nil {
+			rec.Note(fmt.Sprintf("strace cannot attach here (%v): the system-call crash-point and error-injection sub-stages did not run", err))
+			s.strace = ""
+		} else {
+			tr.Wait()
+		}
+		cleanup()
+	}
 	s.stageKill(kit.Tier(150, 5000))
 	if s.strace != "" {
 		s.stageStrace("plain", false, 0, 1, kit.Tier(8, 16), true)
@@ -96,6 +122,12 @@ func c20Supervise(t *testing.T, mountns bool) {
 	k, c, f := s.delivered.kills, s.delivered.crashpoints, s.delivered.faults
 	s.delivered.Unlock()
 	t.Logf("C20: kills=%d crash points=%d failures=%d", k, c, f)
+	s.cmu.Lock()
+	soft := s.soft
+	s.cmu.Unlock()
+	if len(soft) > 0 {
+		s.fatal("C20: a sub-stage could not observe what it is there for (infrastructure / a tree on which healthy stores fail), refusing to pass: %v", soft)
+	}
 	if c+f == 0 || k == 0 {
 		s.fatal("C20: could not inject (kills=%d crash points=%d failures=%d): nothing was observed, refusing to pass", k, c, f)
 	}
@@ -139,6 +171,14 @@ func (s *c20Sup) prepopulate(dir string, num int) {
 	if err := os.WriteFile(filepath.Join(dir, c20File), s.want(num), 0o644); err != nil {
 		s.fatal("prepopulate: %v", err)
 	}
+}
+
+// softErr: a sub-stage could not do its work; the other sub-stages still run, the check ends with ERROR.
+func (s *c20Sup) softErr(msg string) {
+	s.rec.Note("ERROR " + msg)
+	s.cmu.Lock()
+	s.soft = append(s.soft, msg)
+	s.cmu.Unlock()
 }
 
 func (s *c20Sup) violation(sig, msg string, detail map[string]interface{}) {
@@ -185,6 +225,8 @@ type c20Step struct {
 	PreCmd  string // command to the child before the store (rlimit …)
 	PostCmd string
 	Fault   string // name of the fault active during this store ("" = healthy)
+	// ExpectDeath: the fault is meant to kill the child in this store (SIGXFSZ with its default disposition)
+	ExpectDeath bool
 }
 
 type c20StepResult struct {
@@ -210,6 +252,24 @@ type c20Run struct {
 	DiedIn int // store in progress when the child died (0: none)
 	Disk   c20Disk
 	Log    string
+	// Crashed: the child ended by itself abnormally (panic, fatal error).  Reported by the caller (reportCrash)
+	// unless the caller finds that its own injection hit the Go runtime instead of the store.
+	Crashed  bool
+	expected bool
+	Stage    string
+	Inject   string
+}
+
+func (s *c20Sup) reportCrash(run *c20Run) {
+	if !run.Crashed {
+		return
+	}
+	last := c20StepResult{}
+	if len(run.Steps) > 0 {
+		last = run.Steps[len(run.Steps)-1]
+	}
+	s.violation(fmt.Sprintf("crash:child:%s:%s", run.Stage, last.Op), "the storing process crashed by itself ("+run.Exit+")",
+		map[string]interface{}{"last_step": last, "inject": run.Inject, "child_output_tail": c20Tail(filepath.Join(s.base, "children.log"), 3000)})
 }
 
 // scripted drives one child through steps, one `store` command at a time, judging the disk after each.
@@ -229,7 +289,7 @@ func (s *c20Sup) scripted(stage, dir string, startNum int, steps []c20Step, inje
 	}
 	defer func() { p.kill(); p.wait() }()
 	s.checkLoad(stage, p, disk)
-	run := &c20Run{Log: logPath}
+	run := &c20Run{Log: logPath, Stage: stage, Inject: inject}
 	var tracer *exec.Cmd
 	if logPath != "" {
 		tracer, err = s.attach(p.tid, logPath, inject)
@@ -312,6 +372,7 @@ func (s *c20Sup) scripted(stage, dir string, startNum int, steps []c20Step, inje
 		if !alive {
 			run.Exit = p.wait()
 			run.DiedIn = st.K
+			run.expected = st.ExpectDeath && strings.HasPrefix(run.Exit, "signal:")
 		}
 		now, err := c20ReadDisk(dir)
 		if err != nil {
@@ -321,7 +382,17 @@ func (s *c20Sup) scripted(stage, dir string, startNum int, steps []c20Step, inje
 		if st.Flags == "bad" {
 			k = 0 // the unmarshalable configuration can never be on disk
 		}
-		now, res.Class = s.judge(now, prev, k)
+		if st.Flags == "bad" && res.Done && res.OK {
+			// this tree accepted a configuration that proto.Marshal refuses (required fields missing); what "the new
+			// configuration" is on disk is then its business: only parseability can be demanded
+			var c pb.ClientConf
+			if !now.Absent && !bytes.Equal(now.Bytes, prev.Bytes) && proto.Unmarshal(now.Bytes, &c) != nil {
+				res.Class = "unparseable"
+			}
+			s.rec.Inconclusive("a configuration without its required fields was stored successfully; only parseability was checked", map[string]interface{}{"store": st.K, "after": now.String()})
+		} else {
+			now, res.Class = s.judge(now, prev, k)
+		}
 		res.After = now.String()
 		res.Left = c20Leftovers(dir, false)
 		if res.Class != "" {
@@ -361,14 +432,7 @@ func (s *c20Sup) scripted(stage, dir string, startNum int, steps []c20Step, inje
 		run.Exit = p.wait()
 	}
 	run.Disk = disk
-	if run.Exit != "killed" && run.Exit != "exit:0" && run.Exit != "exit:97" {
-		last := c20StepResult{}
-		if len(run.Steps) > 0 {
-			last = run.Steps[len(run.Steps)-1]
-		}
-		s.violation(fmt.Sprintf("crash:child:%s:%s", stage, last.Op), "the storing process crashed by itself ("+run.Exit+")",
-			map[string]interface{}{"last_step": last, "inject": inject, "child_output_tail": c20Tail(filepath.Join(s.base, "children.log"), 3000)})
-	}
+	run.Crashed = run.Exit != "killed" && run.Exit != "exit:0" && run.Exit != "exit:97" && !run.expected
 	return run
 }
 
@@ -390,6 +454,7 @@ func (s *c20Sup) stageBaseline() {
 	defer cleanup()
 	durs := map[string][]time.Duration{}
 	check := func(run *c20Run) {
+		s.reportCrash(run)
 		for _, r := range run.Steps {
 			if !r.OK || !strings.HasPrefix(r.After, fmt.Sprintf("config#%d(", r.K)) {
 				if r.Class == "" {
@@ -545,10 +610,11 @@ func (s *c20Sup) killRound(dir string, disk c20Disk, round int) c20Disk {
 			phase = fmt.Sprintf("temp-partial:%d", left[len(left)-1])
 		}
 		s.rec.Count("kills_inside_a_store", 1)
+		s.rec.Count("kill_state."+c20Size(k)+"."+strings.SplitN(phase, ":", 2)[0], 1)
 		s.rec.Count("kills_inside."+lastOp+"."+c20Size(k), 1)
 		s.rec.Distinct("nontrivial", "kill", lastOp, c20Size(k), phase)
 		s.rec.Distinct("kill_crash_states", lastOp, c20Size(k), phase)
-		if s.rec.WantSample() && (strings.HasPrefix(phase, "temp-") || round%7 == 0) {
+		if strings.HasPrefix(phase, "temp-partial") && c20Size(k) == "large" && s.wantSample("kill", 1) {
 			s.rec.Sample(map[string]interface{}{"kind": "SIGKILL", "round": round, "store": k, "op": lastOp, "size": c20Size(k), "crash_state": phase, "file_after": now.String()})
 		}
 	}
@@ -604,7 +670,8 @@ func (s *c20Sup) stageStrace(label string, tmpfs bool, startNum, from, to int, e
 	logPath := filepath.Join(s.base, fmt.Sprintf("strace-%s-dry.log", label))
 	run := s.scripted(stageKillName, dir, startNum, c20Healthy(from, to), "", logPath)
 	cleanup()
-	seq, _, err := c20ParseStrace(logPath)
+	s.reportCrash(run)
+	seq, _, err := c20ParseStrace(logPath, dir)
 	if err != nil || len(seq) == 0 {
 		s.rec.Note(fmt.Sprintf("strace produced no usable log (%v): the system-call sub-stages did not run", err))
 		return
@@ -613,7 +680,7 @@ func (s *c20Sup) stageStrace(label string, tmpfs bool, startNum, from, to int, e
 	for _, r := range run.Steps {
 		ops[r.K] = r.Op
 		if !r.OK {
-			s.rec.Note(fmt.Sprintf("%s: store %d failed in the dry run (%s); the system-call sub-stage was skipped", label, r.K, r.Err))
+			s.softErr(fmt.Sprintf("%s: store %d (%s) failed in a healthy directory during the dry strace run (%s): the system-call sub-stage could not run", label, r.K, r.Op, r.Err))
 			return
 		}
 	}
@@ -637,7 +704,7 @@ func (s *c20Sup) stageStrace(label string, tmpfs bool, startNum, from, to int, e
 			perStore[k] = append(perStore[k], sc.Name)
 		}
 	}
-	if s.rec.WantSample() {
+	if s.wantSample("dry", 1) {
 		s.rec.Sample(map[string]interface{}{"kind": "system calls of one store (dry strace run, " + label + ")", "store": from, "op": ops[from], "syscalls": strings.Join(perStore[from], " ")})
 	}
 
@@ -655,7 +722,7 @@ func (s *c20Sup) stageStrace(label string, tmpfs bool, startNum, from, to int, e
 	if errInject {
 		nerr := kit.Tier(2, 99)
 		for _, pt := range points {
-			if pt.Store == 0 || pt.Fd3 {
+			if pt.Store == 0 || pt.Fd3 || !pt.OnDir {
 				continue
 			}
 			for i, e := range c20ErrInject[pt.Name] {
@@ -667,130 +734,140 @@ func (s *c20Sup) stageStrace(label string, tmpfs bool, startNum, from, to int, e
 		}
 	}
 	var mu sync.Mutex
-	hitAll, planned := 0, 0
+	hitAll := 0
 	missed := []string{}
+	var seqNo int
+	// attempt runs one injection; false = the injection did not land where it was aimed (the Go runtime issued an
+	// extra write/close on this thread and shifted strace's count): the caller tries again
+	attempt := func(j job, lastTry bool) bool {
+		mu.Lock()
+		seqNo++
+		n := seqNo
+		mu.Unlock()
+		dir, cleanup := mk()
+		defer cleanup()
+		lp := filepath.Join(s.base, fmt.Sprintf("strace-%s-%d.log", label, n))
+		defer os.Remove(lp)
+		stage := stageKillName
+		last := to
+		if j.errno != "" {
+			stage = stageErrName
+			if j.pt.Store+2 < last {
+				last = j.pt.Store + 2
+			}
+		} else if j.pt.Store > 0 && j.pt.Store < last {
+			last = j.pt.Store
+		}
+		steps := c20Healthy(from, last)
+		for i := range steps {
+			if steps[i].K == j.pt.Store {
+				steps[i].Fault = "strace " + j.inject
+			}
+		}
+		run := s.scripted(stage, dir, startNum, steps, j.inject, lp)
+		got, killed, _ := c20ParseStrace(lp, dir)
+		desc := fmt.Sprintf("%s#%d of store %d (%s, %s)", j.pt.Name, j.pt.Idx, j.pt.Store, j.pt.Op, j.pt.Size)
+		if j.errno == "" {
+			// what did the kill actually hit?
+			if !killed || run.Exit != "killed" || len(got) == 0 {
+				s.reportCrash(run)
+				s.rec.Count("crashpoint_not_delivered", 1)
+				if lastTry {
+					mu.Lock()
+					missed = append(missed, desc)
+					mu.Unlock()
+				}
+				return false
+			}
+			hit := got[len(got)-1]
+			s.rec.Count("evaluations", 1)
+			s.rec.Count("crashpoints_delivered", 1)
+			s.delivered.Lock()
+			s.delivered.crashpoints++
+			s.delivered.Unlock()
+			exact := hit.Name == j.pt.Name && hit.Store == j.pt.Store && hit.Idx == j.pt.Idx
+			if hit.Store > 0 {
+				s.rec.Distinct("nontrivial", "crashpoint", label, ops[hit.Store], c20Size(hit.Store), hit.Name, hit.Idx)
+				s.rec.Distinct("crash_points_inside_stores", label, hit.Store, hit.Name, hit.Idx)
+				s.rec.Count("crashpoints_inside_a_store", 1)
+			}
+			if hit.Store > 0 && strings.HasPrefix(hit.Name, "rename") && c20Size(hit.Store) == "large" && len(run.Steps) > 0 && s.wantSample("crashpoint", 1) {
+				st := run.Steps[len(run.Steps)-1]
+				s.rec.Sample(map[string]interface{}{"kind": "SIGKILL injected at a system call (" + label + ")", "syscall": hit.Name, "index_in_store": hit.Idx, "store": hit.Store, "op": st.Op, "size": st.Size,
+					"strace_line": c20Short(hit.Line, 160), "file_before": st.Before, "file_after": st.After, "leftover_sizes": st.Left})
+			}
+			if j.pt.Store == 0 {
+				return true
+			}
+			mu.Lock()
+			if exact {
+				hitAll++
+			} else if lastTry {
+				missed = append(missed, desc+" (hit "+hit.Name+" in store "+strconv.Itoa(hit.Store)+" instead)")
+			}
+			mu.Unlock()
+			return exact
+		}
+		// error injection: which call did strace tamper with, and did the store fail?
+		var inj *c20Sys
+		for i := range got {
+			if got[i].Injected {
+				inj = &got[i]
+				break
+			}
+		}
+		if inj == nil || !inj.OnDir || inj.Fd3 || run.Exit == "exit:97" {
+			// not delivered, or delivered to a call of the Go runtime (e.g. its eventfd wake-up write, which makes the
+			// runtime abort): an artefact of the injection, says nothing about the store
+			s.rec.Count("errinject_misfired", 1)
+			return false
+		}
+		s.reportCrash(run)
+		var failedStep *c20StepResult
+		for i := range run.Steps {
+			if run.Steps[i].Done && !run.Steps[i].OK {
+				failedStep = &run.Steps[i]
+				break
+			}
+		}
+		s.rec.Count("evaluations", 1)
+		if failedStep == nil {
+			// delivered, but the store succeeded all the same (EINTR is retried by the Go runtime): observed, judged, not a failure
+			s.rec.Count("errinject_absorbed."+j.errno, 1)
+			return true
+		}
+		s.rec.Count("errinject_delivered", 1)
+		s.delivered.Lock()
+		s.delivered.faults++
+		s.delivered.Unlock()
+		s.rec.Distinct("nontrivial", "errinject", label, failedStep.Op, failedStep.Size, inj.Name, j.errno)
+		s.rec.Distinct("failure_kinds", "strace:"+inj.Name+":"+j.errno)
+		if failedStep.MemCheck == "same" {
+			s.rec.Count("rollback_checks", 1)
+		}
+		if j.errno == "ENOSPC" && inj.Name == "write" && s.wantSample("errinject", 1) {
+			s.rec.Sample(map[string]interface{}{"kind": "error injected by strace", "syscall": inj.Name, "errno": j.errno, "store": failedStep.K, "op": failedStep.Op, "size": failedStep.Size,
+				"strace_line": c20Short(inj.Line, 160), "api_error": failedStep.Err, "memory_after": failedStep.MemCheck + "/" + failedStep.Mem, "file_before": failedStep.Before, "file_after": failedStep.After, "leftover_sizes": failedStep.Left})
+		}
+		return true
+	}
 	var wg sync.WaitGroup
 	ch := make(chan job, len(jobs))
 	for _, j := range jobs {
 		ch <- j
 	}
 	close(ch)
-	var seqNo int
 	for w := 0; w < 4; w++ {
 		wg.Add(1)
 		go func() {
 			defer wg.Done()
 			for j := range ch {
-				mu.Lock()
-				seqNo++
-				n := seqNo
-				mu.Unlock()
-				dir, cleanup := mk()
-				lp := filepath.Join(s.base, fmt.Sprintf("strace-%s-%d.log", label, n))
-				stage := stageKillName
-				last := to
-				if j.errno != "" {
-					stage = stageErrName
-					if j.pt.Store+2 < last {
-						last = j.pt.Store + 2
+				for try := 0; try < 3; try++ {
+					if attempt(j, try == 2) {
+						break
 					}
-				} else if j.pt.Store > 0 && j.pt.Store < last {
-					last = j.pt.Store
+					s.rec.Count("strace_retries", 1)
 				}
-				steps := c20Healthy(from, last)
-				for i := range steps {
-					if steps[i].K == j.pt.Store {
-						steps[i].Fault = "strace " + j.inject
-					}
-				}
-				run := s.scripted(stage, dir, startNum, steps, j.inject, lp)
-				got, killed, _ := c20ParseStrace(lp)
-				cleanup()
-				desc := fmt.Sprintf("%s#%d of store %d (%s, %s)", j.pt.Name, j.pt.Idx, j.pt.Store, j.pt.Op, j.pt.Size)
-				mu.Lock()
-				if j.pt.Store > 0 {
-					planned++
-				}
-				mu.Unlock()
-				if j.errno == "" {
-					// what did the kill actually hit?
-					if !killed || run.Exit != "killed" || len(got) == 0 {
-						s.rec.Count("crashpoint_not_delivered", 1)
-						mu.Lock()
-						missed = append(missed, desc)
-						mu.Unlock()
-						os.Remove(lp)
-						continue
-					}
-					hit := got[len(got)-1]
-					s.rec.Count("evaluations", 1)
-					s.rec.Count("crashpoints_delivered", 1)
-					s.delivered.Lock()
-					s.delivered.crashpoints++
-					s.delivered.Unlock()
-					exact := hit.Name == j.pt.Name && hit.Store == j.pt.Store && hit.Idx == j.pt.Idx
-					if hit.Store > 0 {
-						op := j.pt.Op
-						if hit.Store != j.pt.Store {
-							op = ops[hit.Store]
-						}
-						s.rec.Distinct("nontrivial", "crashpoint", label, op, c20Size(hit.Store), hit.Name, hit.Idx)
-						s.rec.Distinct("crash_points_inside_stores", label, hit.Store, hit.Name, hit.Idx)
-						s.rec.Count("crashpoints_inside_a_store", 1)
-					}
-					mu.Lock()
-					if exact && j.pt.Store > 0 {
-						hitAll++
-					} else if j.pt.Store > 0 {
-						missed = append(missed, desc+" (hit "+hit.Name+" in store "+strconv.Itoa(hit.Store)+" instead)")
-					}
-					mu.Unlock()
-					if s.rec.WantSample() && hit.Store > 0 && (hit.Name == "write" || strings.HasPrefix(hit.Name, "rename")) {
-						st := run.Steps[len(run.Steps)-1]
-						s.rec.Sample(map[string]interface{}{"kind": "SIGKILL injected at a system call (" + label + ")", "syscall": hit.Name, "index_in_store": hit.Idx, "store": hit.Store, "op": st.Op, "size": st.Size,
-							"strace_line": c20Short(hit.Line, 160), "file_before": st.Before, "file_after": st.After, "leftover_sizes": st.Left})
-					}
-				} else {
-					// which call did strace tamper with, and did the store fail?
-					var inj *c20Sys
-					for i := range got {
-						if got[i].Injected {
-							inj = &got[i]
-							break
-						}
-					}
-					var failedStep *c20StepResult
-					for i := range run.Steps {
-						if run.Steps[i].Done && !run.Steps[i].OK {
-							failedStep = &run.Steps[i]
-							break
-						}
-					}
-					switch {
-					case inj == nil || run.Exit == "exit:97" || inj.Fd3:
-						s.rec.Count("errinject_not_delivered", 1)
-					case failedStep == nil:
-						// delivered, but the store succeeded all the same (EINTR is retried by the Go runtime): observed, judged, not a failure
-						s.rec.Count("errinject_absorbed."+j.errno, 1)
-						s.rec.Count("evaluations", 1)
-					default:
-						s.rec.Count("evaluations", 1)
-						s.rec.Count("errinject_delivered", 1)
-						s.delivered.Lock()
-						s.delivered.faults++
-						s.delivered.Unlock()
-						s.rec.Distinct("nontrivial", "errinject", label, failedStep.Op, failedStep.Size, inj.Name, j.errno)
-						s.rec.Distinct("failure_kinds", "strace:"+inj.Name+":"+j.errno)
-						if failedStep.MemCheck == "same" {
-							s.rec.Count("rollback_checks", 1)
-						}
-						if s.rec.WantSample() && j.errno == "ENOSPC" && inj.Name == "write" {
-							s.rec.Sample(map[string]interface{}{"kind": "error injected by strace", "syscall": inj.Name, "errno": j.errno, "store": failedStep.K, "op": failedStep.Op, "size": failedStep.Size,
-								"api_error": failedStep.Err, "memory_after": failedStep.MemCheck + "/" + failedStep.Mem, "file_before": failedStep.Before, "file_after": failedStep.After, "leftover_sizes": failedStep.Left})
-						}
-					}
-				}
-				os.Remove(lp)
 			}
 		}()
 	}
@@ -848,6 +925,12 @@ func (s *c20Sup) stageFaults() {
 			}
 			cases = append(cases, c20FaultCase{Kind: "efbig", K: k, Window: 1, Param: lim})
 		}
+		for _, lim := range []int64{0, 1, 300, 4096, 1 << 20, 2<<20 + 12345, 3 << 20} {
+			if !kit.Thorough() && lim != 1 && lim != 4096 && lim != 2<<20+12345 {
+				continue
+			}
+			cases = append(cases, c20FaultCase{Kind: "sigxfsz-crash", K: k, Window: 1, Param: lim})
+		}
 		if s.mountns {
 			cases = append(cases, c20FaultCase{Kind: "erofs", Tmpfs: "32m", K: k, Window: 1})
 			for _, free := range []int64{0, 4096, 64 << 10, 1 << 20, 3 << 20} {
@@ -867,7 +950,7 @@ func (s *c20Sup) stageFaults() {
 	}
 	// the small tmpfs of the design: 256 KB, a large store cannot fit at all
 	if s.mountns {
-		cases = append(cases, c20FaultCase{Kind: "enospc-256k-tmpfs", Tmpfs: "256k", K: 3, Window: 1}, c20FaultCase{Kind: "enospc-256k-tmpfs", Tmpfs: "256k", K: 5, Window: 1})
+		cases = append(cases, c20FaultCase{Kind: "enospc-256k-tmpfs", Tmpfs: "256k", K: 3, Window: 4}, c20FaultCase{Kind: "enospc-256k-tmpfs", Tmpfs: "256k", K: 5, Window: 2})
 	}
 
 	ch := make(chan c20FaultCase, len(cases))
@@ -928,13 +1011,14 @@ func (s *c20Sup) faultCase(c c20FaultCase) {
 				if off {
 					st.PostCmd = "rlimit restore"
 				}
+			case "sigxfsz-crash":
+				st.Fault = fmt.Sprintf("sigxfsz-crash(limit=%d)", c.Param)
+				st.ExpectDeath = true
+				st.PreCmd = fmt.Sprintf("rlimit fsize %d die", c.Param)
+				st.PostCmd = "rlimit restore"
 			case "enoent-dir-removed":
 				if on {
-					st.Pre = func() {
-						if c.Tmpfs == "" {
-							os.RemoveAll(dir)
-						}
-					}
+					st.Pre = func() { os.RemoveAll(dir) }
 				}
 				if off {
 					st.Post = func() { os.MkdirAll(dir, 0o755) }
@@ -970,15 +1054,15 @@ func (s *c20Sup) faultCase(c c20FaultCase) {
 					st.Post = func() { os.Remove(filepath.Join(dir, "filler")) }
 				}
 			case "enospc-256k-tmpfs":
-				// nothing to switch on: the file system is simply too small for the large configuration
-				if off {
-					st.Post = func() { c20Leftovers(dir, true) } // an operator removes the debris; then small stores fit again
-				}
+				// nothing to switch on: the file system is simply too small for the large configuration;
+				// after each attempt the debris is removed (as an operator would), so that a small configuration fits again
+				st.Post = func() { c20Leftovers(dir, true) }
 			}
 		}
 		steps = append(steps, st)
 	}
 	run := s.scripted("fault-"+c.Kind, dir, startNum, steps, "", "")
+	s.reportCrash(run)
 	for _, r := range run.Steps {
 		if r.Fault == "" {
 			if !r.OK {
@@ -987,6 +1071,19 @@ func (s *c20Sup) faultCase(c c20FaultCase) {
 			continue
 		}
 		if !r.Done {
+			if c.Kind == "sigxfsz-crash" && run.expected {
+				// the process died in mid-write at the chosen offset; scripted() has judged the file
+				s.rec.Count("evaluations", 1)
+				s.rec.Count("midwrite_crashes_delivered", 1)
+				s.delivered.Lock()
+				s.delivered.crashpoints++
+				s.delivered.Unlock()
+				s.rec.Distinct("nontrivial", "midwrite-crash", r.Op, r.Size, c.Param)
+				if r.Size == "large" && c.Param > 4096 && s.wantSample("midwrite", 1) {
+					s.rec.Sample(map[string]interface{}{"kind": "process killed by SIGXFSZ in mid-write", "fault": r.Fault, "store": r.K, "op": r.Op, "size": r.Size, "exit": run.Exit,
+						"file_before": r.Before, "file_after": r.After, "leftover_sizes": r.Left})
+				}
+			}
 			continue
 		}
 		if r.OK {
@@ -1006,7 +1103,7 @@ func (s *c20Sup) faultCase(c c20FaultCase) {
 		if r.MemCheck == "same" {
 			s.rec.Count("rollback_checks", 1)
 		}
-		if s.rec.WantSample() && (strings.HasPrefix(c.Kind, "enospc") || c.Kind == "erofs") && r.Size == "large" {
+		if strings.HasPrefix(c.Kind, "enospc") && r.Size == "large" && len(r.Left) > 0 && s.wantSample("fault", 1) {
 			s.rec.Sample(map[string]interface{}{"kind": "real failure", "fault": r.Fault, "store": r.K, "op": r.Op, "size": r.Size, "api_error": r.Err,
 				"memory_after": r.MemCheck + "/" + r.Mem, "file_before": r.Before, "file_after": r.After, "leftover_sizes": r.Left})
 		}
